@@ -173,8 +173,7 @@ class ComplementaryTableInfo:
         for name in set(columns.keys()) - df_cname_set:
             del columns[name]
 
-        if not self.metadata.strict_types:
-            return
+        strict_types = self.metadata.strict_types
 
         # update metadata
         for name in df_columns:
@@ -183,7 +182,8 @@ class ComplementaryTableInfo:
             # this is because empty columns default to float data type
             is_empty = df.empty
             if name in columns and not is_empty:
-                columns[name].check_dtype(dtype=dtype, col_name=name)
+                if strict_types:
+                    columns[name].check_dtype(dtype=dtype, col_name=name)
             elif not is_empty:
                 columns[name] = ColumnMetadata.from_dtype(dtype)
 
